@@ -9,6 +9,7 @@ namespace FpgoVerif.C04
 
 inductive Handle
   | arr (s : Slice) (full : Bool)  -- a Go slice held by the caller; `full`: caller-made, dumped up to cap
+  | names (ms : List (Option String)) (streams : Bool) -- a caller-owned slice of stream pointers / of slices, by member name
   | str (p : Option Nat)           -- *StreamDef / *StreamForInterfaceDef (none = nil pointer)
   | set (p : Nat)                  -- set with element values
   | sset (p : Nat)                 -- StreamSet
@@ -29,7 +30,7 @@ def State.find (st : State) (n : String) : Option Handle :=
 
 /-- unary stream transformers -/
 inductive S1
-  | map (f : Nat) | filter (p : Nat) | reject (p : Nat) | notnil | distinct | clone | reverse
+  | map (f : Nat) | filter (p : Nat) | reject (p : Nat) | notnil | notnilp | distinct | clone | reverse
   | sort (c : Nat) | sortidx (c : Nat) | rmitem (vs : List Int) | append (vs : List Int) | remove (i : Int)
 deriving DecidableEq, Repr
 
@@ -55,6 +56,11 @@ inductive Op
   | sinter (dst src : String) (arg : Option String)
   | sminus (dst src : String) (arg : Option String)
   | extend (dst src : String) (args : List (Option String))
+  -- spread calls: the operand list is a caller-owned slice
+  | mklist (dst : String) (ms : List (Option String)) (streams : Bool)
+  | extendv (dst src l : String) | concatv (dst src l : String)
+  | s1v (dst src a : String) (app : Bool)      -- Append(a...) / RemoveItem(a...)
+  | m1v (dst src a : String) (k : Nat)         -- Add(a...) / RemoveKeys(a...) / RemoveValues(a...)
   | concat (dst src : String) (args : List (Option String))
   | slen (s : String) | sget (s : String) (i : Int) | shas (s : String) (v : Int)
   | srel (s : String) (arg : Option String) (sup : Bool)
@@ -147,7 +153,8 @@ def execS1 (iface : Bool) (w : World) (p : Nat) : S1 → World × Nat
   | .map f => w.strMap p (Spec.mapFn f)
   | .filter k => w.strFilter p (Spec.predFn k)
   | .reject k => w.strFilter p (fun x i => !Spec.predFn k x i)
-  | .notnil => w.strFilter p (fun x _ => !iface || x != Spec.nilCode)
+  | .notnil => w.strFilter p (fun x _ => !iface || !Spec.isAbsent x)
+  | .notnilp => w.strFilter p (fun x _ => x != Spec.nilCode)
   | .distinct => w.strDistinct p
   | .clone => w.strClone p
   | .reverse => w.strReverse p
@@ -181,6 +188,18 @@ def m2Kind (iface streams : Bool) (k : M2) (p : Nat) : Handle :=
   if !streams then .set p else match k with
     | .minus => if iface then .sset p else .uset p
     | _ => .sset p
+
+/-- `Extend(streams...)` with the operands given by name (`nil` = nil pointer) -/
+def execExtend (st : State) (dst src : String) (args : List (Option String)) : Res :=
+  match findStr st src, allSome (args.map (findStrArg st)) with
+  | some p, some qs => let (w, r) := st.w.strExtend p qs; .ok w (some (dst, .str (some r))) "ok"
+  | _, _ => .err "bad-ref"
+
+/-- `Concat(slices...)` with the operands given by name (`nil` = nil slice) -/
+def execConcat (st : State) (dst src : String) (args : List (Option String)) : Res :=
+  match findStr st src, allSome (args.map (findArrArg st)) with
+  | some p, some ss => let (w, r) := st.w.strConcat p ss; .ok w (some (dst, .str (some r))) "ok"
+  | _, _ => .err "bad-ref"
 
 def exec (iface : Bool) (st : State) : Op → Res
   | .arr dst len vals =>
@@ -219,13 +238,35 @@ def exec (iface : Bool) (st : State) : Op → Res
     match findStr st src, findStrArg st arg with
     | some p, some q => let (w, r) := st.w.strMinus p q; .ok w (some (dst, .str (some r))) "ok"
     | _, _ => .err "bad-ref"
-  | .extend dst src args =>
-    match findStr st src, allSome (args.map (findStrArg st)) with
-    | some p, some qs => let (w, r) := st.w.strExtend p qs; .ok w (some (dst, .str (some r))) "ok"
+  | .extend dst src args => execExtend st dst src args
+  | .concat dst src args => execConcat st dst src args
+  | .mklist dst ms streams =>
+    -- every member must be a live stream (slice) handle or nil
+    if (if streams then (allSome (ms.map (findStrArg st))).isSome else (allSome (ms.map (findArrArg st))).isSome)
+    then .ok st.w (some (dst, .names ms streams)) "ok" else .err "bad-ref"
+  | .extendv dst src l =>
+    match st.find l with
+    | some (.names ms true) => execExtend st dst src ms
+    | _ => .err "bad-ref"
+  | .concatv dst src l =>
+    match st.find l with
+    | some (.names ms false) => execConcat st dst src ms
+    | _ => .err "bad-ref"
+  | .s1v dst src a app =>
+    match findStr st src, findArr st a with
+    | some p, some (s, _) =>
+      let items := st.w.sliceContent s
+      let (w, q) := execS1 iface st.w p (if app then .append items else .rmitem items)
+      .ok w (some (dst, .str (some q))) "ok"
     | _, _ => .err "bad-ref"
-  | .concat dst src args =>
-    match findStr st src, allSome (args.map (findArrArg st)) with
-    | some p, some ss => let (w, r) := st.w.strConcat p ss; .ok w (some (dst, .str (some r))) "ok"
+  | .m1v dst src a k =>
+    match findSetLike st src, findArr st a with
+    | some (p, streams), some (s, _) =>
+      let items := st.w.sliceContent s
+      let op : M1 := match k with | 0 => .add items | 1 => .rmkeys items | _ => .rmvals items
+      match execM1 iface streams st.w p op with
+      | some (w, q) => .ok w (some (dst, m1Kind streams op q)) "ok"
+      | none => .err "bad-op"
     | _, _ => .err "bad-ref"
   | .slen s =>
     match findStr st s with
@@ -389,6 +430,7 @@ inductive Content
   | str (l : List Int)
   | nilStr
   | set (m : List (Int × CVal))
+  | names (ms : List (Option String))
 deriving DecidableEq, Repr
 
 def cval (w : World) : Val → CVal
@@ -401,6 +443,7 @@ def setContent (w : World) (p : Nat) : List (Int × CVal) :=
 
 def content (w : World) : Handle → Content
   | .arr s full => .arr (w.sliceContent s) (if full then w.sliceHidden s else [])
+  | .names ms _ => .names ms
   | .str none => .nilStr
   | .str (some p) => .str (w.strContent p)
   | .set p => .set (setContent w p)
@@ -419,9 +462,24 @@ def showContent : Content → String
   | .str l => "[" ++ showInts l ++ "]"
   | .nilStr => "nil"
   | .set m => "{" ++ "/".intercalate (m.map (fun kv => toString kv.1 ++ ":" ++ showCVal kv.2)) ++ "}"
+  | .names ms => "(" ++ "/".intercalate (ms.map (fun m => m.getD "nil")) ++ ")"
+
+/-- a caller-owned operand list is printed member by member (what each slot points to) -/
+def showMember (st : State) : Option String → String
+  | none => "nil"
+  | some n => match st.find n with
+    | some (.str (some p)) => "[" ++ showInts (st.w.strContent p) ++ "]"
+    | some (.str none) => "nil"
+    | some (.arr s _) => "[" ++ showInts (st.w.sliceContent s) ++ "]"
+    | _ => "?"
+
+def showHandle (st : State) (h : Handle) : String :=
+  match h with
+  | .names ms _ => "(" ++ "/".intercalate (ms.map (showMember st)) ++ ")"
+  | h => showContent (content st.w h)
 
 def dump (st : State) : String :=
-  " ".intercalate (st.env.map (fun e => e.1 ++ "=" ++ showContent (content st.w e.2)))
+  " ".intercalate (st.env.map (fun e => e.1 ++ "=" ++ showHandle st e.2))
 
 /-! ### parsing -/
 
@@ -452,6 +510,17 @@ def parseCreate (dst : String) : List String → Op
   | ["filter", s, p] => orBad do some (.s1 dst s (.filter (← p.toNat?)))
   | ["reject", s, p] => orBad do some (.s1 dst s (.reject (← p.toNat?)))
   | ["notnil", s] => .s1 dst s .notnil
+  | ["slist", ms] => .mklist dst ((ms.splitOn ",").map parseArg) true
+  | ["alist", ms] => .mklist dst ((ms.splitOn ",").map parseArg) false
+  | ["extendv", s, l] => .extendv dst s l
+  | ["concatv", s, l] => .concatv dst s l
+  | ["appendv", s, a] => .s1v dst s a true
+  | ["rmitemv", s, a] => .s1v dst s a false
+  | ["addv", m, a] => .m1v dst m a 0
+  | ["rmkeysv", m, a] => .m1v dst m a 1
+  | ["rmvalsv", m, a] => .m1v dst m a 2
+  | ["setfromv", a] => .setFromArr dst a
+  | ["tfromv", a] => .tfromArr dst a
   | ["distinct", s] => .s1 dst s .distinct
   | ["clone", s] => .s1 dst s .clone
   | ["reverse", s] => .s1 dst s .reverse
@@ -526,13 +595,23 @@ def parseCase (line : String) : Bool × List String :=
     if line.startsWith "I: " then (true, (line.drop 3).toString)
     else if line.startsWith "G: " then (false, (line.drop 3).toString)
     else if line.startsWith "H: " then (false, (line.drop 3).toString)
+    else if line.startsWith "P: " then (false, (line.drop 3).toString)
     else (false, line)
   (iface, ((body.splitOn ";").map (fun t => t.trimAscii.toString)).filter (· ≠ ""))
+
+/-- family `P:` (generic streams of POINTER elements, `-1` = nil pointer): the element type has absent values,
+    so its `FilterNotNil` is the nil-filtering one -/
+def famOp (line : String) (op : Op) : Op :=
+  if line.startsWith "P: " then
+    match op with
+    | .s1 d s .notnil => .s1 d s .notnilp
+    | o => o
+  else op
 
 def runCase (line : String) : String :=
   let (iface, toks) := parseCase line
   let (_, outs) := toks.foldl (fun (acc : State × List String) t =>
-    let (st, o) := step iface acc.1 (parseOp t)
+    let (st, o) := step iface acc.1 (famOp line (parseOp t))
     (st, (o ++ " " ++ dump st) :: acc.2)) (State.init, [])
   " | ".intercalate outs.reverse
 
